@@ -435,8 +435,9 @@ fn late_client(p: &Late, env: &Env) {
     env.open_gate(p.uid);
     let bytes = mk_req("/gated", p.uid, 64, 0, 0).encode();
     env.log.push("C_SEND", p.uid, bytes.len() as i64, "late");
+    // unjudged population (only counted): a shorter bound is enough
     let o = if conn.send(&bytes).is_ok() {
-        read_and_verify(&mut conn, p.uid, 64, WD_READ)
+        read_and_verify(&mut conn, p.uid, 64, Duration::from_secs(10))
     } else {
         Outcome::Io("send".into())
     };
@@ -709,7 +710,7 @@ pub fn run_case(out: &mut Out, seed: u64, shard: u64, case: u64, record: bool) -
         };
         if record {
             count_kinds(rep, &events);
-            out.hangs.push((shard, case, kind.to_string()));
+            out.hangs.push((shard, case, format!("{kind}|{m}")));
         }
         return Some(h);
     }
@@ -974,8 +975,11 @@ pub fn run_shard(seed: u64, shard: u64, nshards: u64, total: u64) -> Out {
 /// alone; 3/3 hangs at logical quiescence = deadlock = violation
 pub fn finish(out: &mut Out, seed: u64) {
     let hangs = std::mem::take(&mut out.hangs);
-    for (i, (shard, case, kind)) in hangs.iter().enumerate() {
-        if i >= 2 {
+    // re-run at most one candidate per (kind, mode)
+    let mut seen: std::collections::BTreeSet<String> = Default::default();
+    for (shard, case, km) in hangs.iter() {
+        let kind = km.split('|').next().unwrap();
+        if !seen.insert(km.clone()) {
             out.rep.inconclusive(&format!("c17-{kind}-watchdog-not-rerun"));
             continue;
         }
